@@ -324,8 +324,9 @@ def deleteEl (orig : Word) (z : MatchEl) (w : Word) (pos : SegPos) (tlc : Option
   match z with
   | .segment i0 _ => do
     let i ← (match tlc with | some t => adjust t i0 | none => pure i0)
-    let origLen ← (match orig.syllLen i.si with | some l => pure l | none => .panic "deletion: word.syllables[i.syll_index]")
-    if w.sylls.length ≤ 1 && origLen ≤ 1 then .err "DeletionOnlySeg"
+    -- the word as it is NOW (after the repair of D8d): `res_word.syllables.get(i).map_or(true, |s| s.segments.len() <= 1)`
+    let lastSeg : Bool := match w.syllLen i.si with | some l => decide (l ≤ 1) | none => true
+    if w.sylls.length ≤ 1 && lastSeg then .err "DeletionOnlySeg"
     else do
       let σ ← getSyll w i.si "deletion: res_word.syllables[i.syll_index]"
       let σ' := removeSegAt σ i.gi
